@@ -36,7 +36,7 @@ Section Thm.
   Variable th_push th_pop : TS -> TS.
   Variable FUEL : nat.
   Notation state := (@state TS).
-  Hypothesis th_propagate_ok : forall (s : state) p, Inv T s -> In p (trail s) ->
+  Hypothesis th_propagate_ok : forall (s : state) p, Inv T s -> In p (trail s) -> lvl s p = decision_level s ->
     th_result_ok T s (th_propagate (thst s) (assigns s) (decision_level s) p).
   Hypothesis th_check_ok : forall (s : state), Inv T s ->
     th_result_ok T s (th_check (thst s) (assigns s) (decision_level s)) /\
@@ -221,7 +221,7 @@ Definition sort_contract (sort : (lit -> lit -> bool) -> list lit -> list lit) :
 Definition theory_contract {TS : Type} (T : asg -> Prop)
   (th_propagate : TS -> list lbool -> nat -> lit -> TS * list (list lit) * option (list lit))
   (th_check : TS -> list lbool -> nat -> TS * list (list lit) * option (list lit)) : Prop :=
-  (forall (s : @state TS) p, Inv T s -> In p (trail s) ->
+  (forall (s : @state TS) p, Inv T s -> In p (trail s) -> lvl s p = decision_level s ->
      th_result_ok T s (th_propagate (thst s) (assigns s) (decision_level s) p)) /\
   (forall (s : @state TS), Inv T s ->
      th_result_ok T s (th_check (thst s) (assigns s) (decision_level s)) /\
@@ -232,7 +232,7 @@ Proof. split. intros; apply isort_perm. apply isort_var_sorted. Qed.
 Lemma no_theory_contract : theory_contract no_theory nt_propagate nt_check.
 Proof.
   split.
-  - intros s p _ _. unfold th_result_ok, nt_propagate. simpl. split. constructor. intros; discriminate.
+  - intros s p _ _ _. unfold th_result_ok, nt_propagate. simpl. split. constructor. intros; discriminate.
   - intros s _. unfold th_result_ok, nt_check. simpl. split; auto. split. constructor. intros; discriminate.
 Qed.
 
